@@ -66,6 +66,27 @@ CLAIMED["C11"] = dict(
     note="cKDTree and np.linalg.svd replaced by stated contracts (the svd contract is a ground check per lattice); Cauchy-Schwarz / monotonicity steps are discharged as separate lemma obligations and used as instances; fully symbolic 2-D/3-D lattices outside",
     ref="DESIGN.md#c11")
 
+CLAIMED.update({
+    "C17": dict(
+        text="coulomb_gaussian_s/p are executed on symbolic alpha > 0 and r >= 0 (both branches of the 1e-12 switch, erf as an atom with its derivative): z3/normalisation decide the radial Poisson equation "
+             "(r V)'' = -4 pi r rho for the DOCUMENTED density, the value below the switch against the r->0 limit, far-field and continuity bounds, the unnormalised factor, and coulomb_potential as the "
+             "coefficient-weighted sum over symbolic s and p centres; the element table is walked completely (all symbols/numbers, 5 spellings, with in-place edits between loads).",
+        note="erf derivative and bounds are stated assumptions; distances in the superposition job via a keyed norm stub; the table walk is a ground enumeration; known finding: the p-type closed form",
+        ref="DESIGN.md#c17"),
+    "C19": dict(
+        text="Histories over a 9-operation alphabet (constructions with cache on/off across methods sharing a degree key, writes of fresh SYMBOLS into every returned array, AtomGrid/shell extraction, rotation, "
+             "integration) are enumerated up to length 3/4 on the real code with the shipped data as exact constants; afterwards fresh AngularGrid (cache on and off) and AtomGrid must be the shipped constants "
+             "for every written value (symbolic taint). Same for the b-scaled transforms (all call sequences <= 2/3 steps with in-place edits, b given or inferred) and the Coulomb table.",
+        note="bounded histories and small degrees; np.load contents read natively; a non-constant observation is handed to z3 for a concrete written value and replayed on the float code",
+        ref="DESIGN.md#c19"),
+    "C20": dict(
+        text="~190 public entry points / aliasing patterns (all transform methods, transform_1d_grid, Grid.integrate/moments/get_localgrid/__getitem__, PeriodicGrid, UniformGrid incl. from_molecule and "
+             "closest_point, Tensor1DGrids, MultiDomainGrid.integrate, the ODE helpers and the func closures of both ODE drivers, BeckeWeights routes) are executed on write-protected symbolic arrays on every path; "
+             "callbacks return fresh arrays, their argument or one cached write-protected array; afterwards every input and every array handed out by a callback is identical to its snapshot; Poisson option dictionaries concretely.",
+        note="path coverage comes from the symbolic contents (z3 decides feasibility of each branch); the Poisson option-dictionary entries are concrete runs with stubbed ODE drivers; constructors that need shipped data are covered by C19",
+        ref="DESIGN.md#c20"),
+})
+
 NOT_APPLICABLE = {
     "C02": "no symbolic input: validating 450 shipped data files against harmonics up to degree 325 is floating-point enumeration of concrete runs, outside solver-based checking and outside solver reach (the table/lookup half is decided in C12)",
 }
